@@ -291,8 +291,49 @@ def rules_enclosing(f, node):
     return enclosing_stmt(f, node)
 
 
+def check_openturns_gradients(ctx: Ctx) -> None:
+    """18.5: an OpenTURNS function's ``gradient(point)`` is the TRANSPOSED Jacobian (inputs x outputs); every
+    regressor that returns it as a Jacobian (outputs x inputs) transposes it -- the siblings must agree."""
+    from gv.dataflow import SymValues
+
+    n = 0
+    for rel, mod in sorted(ctx.index.modules.items()):
+        if not rel.startswith("mlearning/regression/algos/"):
+            continue
+        for cn, c in sorted(mod.classes.items()):
+            for mname, m in sorted(c.methods.items()):
+                if "jacobian" not in mname:
+                    continue
+                sv = None
+                parents = None
+                for call in walk_body(m):
+                    if not (isinstance(call, ast.Call) and len(call.args) == 1 and isinstance(call.args[0], ast.Call) and last_attr(call.args[0]) == "Point"):
+                        continue
+                    sv = sv or SymValues(m)
+                    if not any(t.endswith(".gradient") for t in sv.texts(call.func)):
+                        continue
+                    if parents is None:
+                        parents = {id(ch): p_ for p_ in ast.walk(m) for ch in ast.iter_child_nodes(p_)}
+                    # climb through array(...) wrappers up to the transposition
+                    cur = call
+                    transposed = False
+                    for _ in range(4):
+                        par = parents.get(id(cur))
+                        if isinstance(par, ast.Call) and last_attr(par) in ("array", "asarray", "atleast_2d") and par.args and par.args[0] is cur:
+                            cur = par
+                        elif isinstance(par, ast.Attribute) and par.attr == "T":
+                            transposed = True
+                            break
+                        else:
+                            break
+                    n += 1
+                    ctx.ob("18.5-openturns-gradient", cname(rel, cn, mname), transposed, "the OpenTURNS gradient of the model at a point is inputs x outputs: it must be transposed to give the Jacobian (outputs x inputs); untransposed it is silently wrong for as many outputs as inputs and mis-shaped otherwise", node=call, stmt=f"array({norm_stmt(call, 40)}).T")
+    ctx.floor("18.5-openturns-gradient", 2)
+
+
 def run(ctx: Ctx) -> None:
     check_kernels(ctx)
+    check_openturns_gradients(ctx)
     check_surrogate(ctx)
     check_pipeline(ctx)
     check_moe(ctx)
